@@ -41,8 +41,11 @@ let show_acc (a : access) =
 
 (* ext: owned bytes per buffer (from the model), cap: allocated bytes per buffer (from .capacity()) *)
 let check name ext balign (cap : int -> int) accs : issue list =
+  (* the verdict is the extracted checker proved sound in C06.v (check_C06_sound: all_ok = true ->
+     every access in bounds and aligned); first_bad only names the offending access *)
+  if all_ok ext balign accs then [] else
   match first_bad ext balign accs with
-  | None -> []
+  | None -> [ModelBad (name ^ ":all_ok-false-without-bad-access", true)]
   | Some a ->
       let b = int_of_nat a.abuf in
       let past = iz a.aoff < 0 || iz a.aoff + iz a.awidth > cap b
@@ -68,7 +71,7 @@ let handle_record (r : string) : issue list =
       (* compare a wrapper result with what the implementation did *)
       let guard_cmp (g : kernel_run res) ~(rows_entered : int) ~(observed_rows : int) =
         match g with
-        | Panic s -> if not panicked then add [Guard (Printf.sprintf "%s:model-panics(site%d)-implementation-did-not(%s)" name s params)]; None
+        | Panic s -> if not panicked then add [Guard (Printf.sprintf "%s:model-panics(site%d)-implementation-did-not(%s)" name (int_of_nat s) params)]; None
         | Ok Skipped ->
             if panicked then add [Guard (Printf.sprintf "%s:implementation-panicked-model-returns-early(%s)" name params)]
             else if observed_rows <> 0 then add [Guard (Printf.sprintf "%s:model-returns-early-implementation-wrote-%d-rows(%s)" name observed_rows params)];
@@ -167,7 +170,7 @@ let handle_record (r : string) : issue list =
                | _ -> ("max_generic", generic_g, 0) in
            let cap b = if b = 0 then gi "cap" * st * es else loc in
            (match g with
-            | Panic s -> if not panicked then add [Guard (Printf.sprintf "%s:model-panics(site%d)-implementation-did-not" kname s)]
+            | Panic s -> if not panicked then add [Guard (Printf.sprintf "%s:model-panics(site%d)-implementation-did-not" kname (int_of_nat s))]
             | Ok Skipped ->
                 if panicked then add [Guard (kname ^ ":implementation-panicked-model-returns-None")]
                 else if op <> "thr" && out <> "0" then add [Guard (kname ^ ":model-None-implementation-Some")]
